@@ -333,7 +333,7 @@ def check_property(prop, tier, jobs, level_text, assumptions, functions_note="",
         for fu in cf.as_completed(futs):
             results.append(fu.result())
     # second chance: a job that gave no verdict (engine killed, solver answered unknown, budget ran out on a job that
-    # must finish) is run once more, with no other jobs of the first round competing, DFS order, twice the time budget
+    # must finish) is run once more, with no other jobs of the first round competing, DFS order, twice the time budget (at most 10 more minutes)
     # and three times the per-query timeout; its second result replaces the first
     def _no_verdict(r):
         res = r["res"]
@@ -348,7 +348,7 @@ def check_property(prop, tier, jobs, level_text, assumptions, functions_note="",
         with cf.ThreadPoolExecutor(NCPU) as ex:
             futs = {}
             for r in again:
-                j2 = copy.copy(r["job"]); j2.timeout = 2 * j2.timeout; j2.query_timeout_ms = 3 * j2.query_timeout_ms
+                j2 = copy.copy(r["job"]); j2.timeout = min(2 * j2.timeout, j2.timeout + 600); j2.query_timeout_ms = 3 * j2.query_timeout_ms
                 futs[ex.submit(_safe_run, j2, 0)] = r
             for fu in cf.as_completed(futs):
                 r2 = fu.result(); r0 = futs[fu]
